@@ -759,3 +759,16 @@ PROPS["C15"]["scope"] += ("; mpsc receive edges (V, mpsc_recv unit): the receive
 PROPS["C15"]["not_decided"] = ["the per-primitive edges in mutex/condvar/once/atomics/spawn/join and the mpsc SEND side (barrier, semaphore batches and the mpsc "
                                "receive side are decided)", "replay restricted to a target clock"]
 PROPS["C02"]["scope"] += "; mpsc recv / try_recv (V): exactly one choice point before anything happens, a second one only to block, after registering and blocking"
+
+PROPS["C06"]["scope"] += ("; Channel::send_internal (send and try_send) and sender_must_block on the extracted real bodies (V, unbounded, same unit): Disconnected "
+                          "exactly when no receiver is left and Full exactly when a try_send would have to wait, both handing the value back and leaving "
+                          "everything untouched; a blocking send waits exactly when full / senders queued / (rendezvous) nobody receives, queues at the tail, "
+                          "blocks, then reaches its choice point; an accepted value is appended at the TAIL exactly once, the buffer never exceeds "
+                          "max(capacity, 1); the first waiting receiver is released, the next waiting sender exactly when there is still room")
+PROPS["C06"]["not_decided"] = ["recv_timeout timing", "eventual release of blocked endpoints (liveness): decided in the safety form only (the operation that makes the "
+                               "wake-up condition true also makes the waiter runnable)"]
+PROPS["C15"]["scope"] += ("; mpsc send edges (V): the message carries the sender's ticked clock; on a rendezvous channel the sender absorbs the waiting receiver's "
+                          "clock, on a buffered bounded channel the OLDEST queued receive clock, which leaves the return queue")
+PROPS["C15"]["not_decided"] = ["the per-primitive edges in mutex/condvar/once/atomics/spawn/join (barrier, semaphore batches and both sides of mpsc are decided)",
+                               "replay restricted to a target clock"]
+PROPS["C02"]["scope"] += "; mpsc send / try_send (V): likewise"
